@@ -100,6 +100,16 @@ def build(ld, kind, n, keyed, tmp, shape='dict'):
         elif kind == 'memcache_shared':
             # the upstream hands out SHARED objects: the cache is what provides the isolation
             ds = (ld.core.DictDataset(container) if keyed else ld.core.ListDataset(container)).cache()
+        elif kind == 'diskcache_small_shared':
+            # a re-used cache directory that was created with a tiny size limit: the disk cache must keep every snapshot all the same
+            # (it switches eviction off), or a later access re-fetches the shared - possibly mutated - object from upstream
+            import diskcache
+            cdir = os.path.join(tmp, 'dc_small')
+            shutil.rmtree(cdir, ignore_errors=True)
+            c0 = diskcache.Cache(cdir, size_limit=1)
+            c0.close()
+            ds = (ld.core.DictDataset(container) if keyed else ld.core.ListDataset(container)).diskcache(
+                cache_dir=cdir, reuse=True, clear=True)
         elif kind == 'diskcache_shared':
             ds = (ld.core.DictDataset(container) if keyed else ld.core.ListDataset(container)).diskcache(
                 cache_dir=os.path.join(tmp, 'dc'), reuse=False, clear=True)
@@ -296,7 +306,7 @@ def run(tier):
     r = common.rng_for('C09')
     big = tier != 'quick'
     tmp = tempfile.mkdtemp(prefix='c09_')
-    kinds = ['pickle', 'copy', 'wu', 'memcache', 'memcache_map', 'diskcache', 'memcache_shared', 'diskcache_shared', 'memcache_copy', 'memcache_copy_shared', 'jsonfile', 'memcache_shared_pct',
+    kinds = ['pickle', 'copy', 'wu', 'memcache', 'memcache_map', 'diskcache', 'memcache_shared', 'diskcache_shared', 'diskcache_small_shared', 'memcache_copy', 'memcache_copy_shared', 'jsonfile', 'memcache_shared_pct',
              'pickle_of_copy_ds', 'pickle_of_wu_ds', 'eager_cache_of_copy_ds', 'from_dataset_of_copy_ds']
     cases, lcases, lmeta, meta, failures = [], [], [], [], []
     for ci in range(5000 if big else 500):
